@@ -88,7 +88,7 @@ def gen(rng):
 
 def plan(tier, seed):
     items = [{"kind": "subsets", "exhaustive": "every subset of the six callbacks x {plain, TLS} on a reference history"}]
-    n = 8000 if tier == "quick" else 150000
+    n = 8000 if tier == "quick" else 600000
     per = 250 if tier == "quick" else 2500
     for s in range(0, n, per):
         items.append({"kind": "rand", "start": s, "count": per})
